@@ -41,12 +41,19 @@ def run_slab(ctx):
     plans.append(("small", [], "churn", 1 if q else 10, 800 if q else 5000, []))
     plans.append(("tiny", ["--poison"], "mixed", 4 if q else 40, 200 if q else 400, ["--failpct", "20"]))
     plans.append(("small", ["--aligned"], "mixed", 2 if q else 20, 200 if q else 400, ["--failpct", "15"]))
+    # the same properties must hold for the FRG_SLAB_TRACK_REGIONS build (every frame also lives in a second red-black
+    # tree keyed by address, and the frame header grows by the hook): two configurations with that define
+    tracked = build.build("slab_track", ["slab.cpp"], defines=["FRG_SLAB_TRACK_REGIONS"])[0]
+    plans.append(("mid", ["--poison"], "mixed", 2 if q else 20, 220 if q else 600, ["@track"]))
+    plans.append(("default", ["--aligned"], "mixed", 1 if q else 10, 220 if q else 600, ["@track"]))
     tp = os.path.join(ctx.work, "slab_seq.trace")
     open(tp, "w").close()
     for i, (geom, fl, mode, cnt, ln, extra) in enumerate(plans):
         part = tp + ".%d" % i
         open(part + ".in", "w").close()
-        core.run_histories(binary, ["--geom", geom] + fl + ["--random", str(cnt), "--len", str(ln), "--mode", mode,
+        use = tracked if "@track" in extra else binary
+        extra = [x for x in extra if x != "@track"]
+        core.run_histories(use, ["--geom", geom] + fl + ["--random", str(cnt), "--len", str(ln), "--mode", mode,
                                                              "--seed", str(ctx.seed + i)] + extra, part + ".in", part, cnt)
         with open(tp, "a") as out:
             out.write(open(part).read())
